@@ -270,6 +270,9 @@ func h1ErrKind(err error) string {
 	case strings.Contains(err.Error(), "family"):
 		return "badfamily"
 	}
+	if strings.HasPrefix(err.Error(), "panic:") {
+		return "panic"
+	}
 	return "other:" + err.Error()
 }
 
@@ -279,7 +282,15 @@ func h1Msg(raw *[]byte, typ stun.AttrType) *stun.Message {
 	if raw != nil {
 		m.Add(typ, *raw)
 	}
-	return m
+	// as on the wire: the attribute values are sub-slices of a buffer that ends with the message
+	m.WriteHeader()
+	exact := make([]byte, len(m.Raw))
+	copy(exact, m.Raw)
+	m2 := &stun.Message{Raw: exact}
+	if err := m2.Decode(); err != nil {
+		return m
+	}
+	return m2
 }
 
 func h1RawOf(m *stun.Message, typ stun.AttrType) string {
@@ -381,7 +392,17 @@ func h1AttrGet(t *vhT, a h1Attr, raw *[]byte) {
 		arg = vhHex(*raw)
 	}
 	t.Op("%s get %s", a.name, arg)
-	v, err := a.get(h1Msg(raw, a.typ))
+	var v string
+	var err error
+	func() {
+		defer func() {
+			if r := recover(); r != nil {
+				err = fmt.Errorf("panic: %v", r)
+				t.Alarm("attr-get-panics", "%s get %s: %v", a.name, arg, r)
+			}
+		}()
+		v, err = a.get(h1Msg(raw, a.typ))
+	}()
 	if err != nil {
 		t.Obs("err %s", h1ErrKind(err))
 		t.Stat("attr." + a.name + ".err." + h1ErrKind(err))
